@@ -3,6 +3,7 @@
 From Coq Require Import ZArith List Bool Arith.
 Import ListNotations.
 From GV Require Import Common.PyInt gen.Gen_links C03.Model C03.Lemmas.
+From GV Require C03.GenLinks.
 
 (* the relaxation loop stops within the fuel the model gives it, and more fuel changes nothing *)
 Theorem discover_terminates : forall own links,
@@ -232,3 +233,40 @@ Theorem gen_update_is_recompute : forall s iter fuel, iter_ok iter -> (fuel_for 
               (filter d_member (s_data (recompute s))), tt).
 Proof. exact Lemmas.gen_update_is_recompute. Qed.
 Print Assumptions gen_update_is_recompute.
+
+(* ---- round 5: WHICH links are in force, as translated from LinkManager._links / ._inverse_links / the expression
+   `self._links | self._inverse_links` handed to discover_links.  Polymorphic in the link / entry / dataset objects; `leqb` is
+   `==`/hash on ComponentLink objects (identity), `iterL` any iteration order of a Python set of links.
+   GenLinks.registered dc ext l :=  (exists dl d, dc = Some dl /\ In d dl /\ In l (data_links_attr d))          -- Data.links of a dataset of the collection
+                                \/ (exists e, In e ext /\ In l (if is_collection e then coll_links e else [entry_link e]))   -- member of a registered entry *)
+
+(* the translated _links holds exactly the registered links: those internal to the datasets of the collection (coordinate
+   links, links of derived components) and the member links of every entry of _external_links *)
+Theorem gen_links_spec : forall (L E D : Type) (leqb : L -> L -> bool), (forall a b, leqb a b = true <-> a = b) ->
+  forall (data_links_attr : D -> list L) (is_collection : E -> bool) (coll_links : E -> list L) (entry_link : E -> L) dc ext l,
+  In l (lm_links L E D leqb data_links_attr is_collection coll_links entry_link dc ext) <->
+  ((exists dl d, dc = Some dl /\ In d dl /\ In l (data_links_attr d)) \/
+   (exists e, In e ext /\ In l (if is_collection e then coll_links e else [entry_link e]))).
+Proof. exact Lemmas.gen_links_spec. Qed.
+Print Assumptions gen_links_spec.
+
+(* the translated _inverse_links holds exactly the `.inverse` of every registered link that has one - internal ones included *)
+Theorem gen_inverse_links_spec : forall (L E D : Type) (leqb : L -> L -> bool), (forall a b, leqb a b = true <-> a = b) ->
+  forall (data_links_attr : D -> list L) (is_collection : E -> bool) (coll_links : E -> list L) (entry_link : E -> L)
+         (inverse : L -> option L) (iterL : list L -> list L), (forall s x, In x (iterL s) <-> In x s) ->
+  forall dc ext l,
+  In l (lm_inverse_links L E D leqb data_links_attr is_collection coll_links entry_link inverse iterL dc ext) <->
+  exists l0, GenLinks.registered L E D data_links_attr is_collection coll_links entry_link dc ext l0 /\ inverse l0 = Some l.
+Proof. exact Lemmas.gen_inverse_links_spec. Qed.
+Print Assumptions gen_inverse_links_spec.
+
+(* the set handed to discover_links: every registered link and the inverse of each one that has an inverse, nothing else *)
+Theorem gen_links_in_force_spec : forall (L E D : Type) (leqb : L -> L -> bool), (forall a b, leqb a b = true <-> a = b) ->
+  forall (data_links_attr : D -> list L) (is_collection : E -> bool) (coll_links : E -> list L) (entry_link : E -> L)
+         (inverse : L -> option L) (iterL : list L -> list L), (forall s x, In x (iterL s) <-> In x s) ->
+  forall dc ext l,
+  In l (lm_links_in_force L E D leqb data_links_attr is_collection coll_links entry_link inverse iterL dc ext) <->
+  (GenLinks.registered L E D data_links_attr is_collection coll_links entry_link dc ext l \/
+   exists l0, GenLinks.registered L E D data_links_attr is_collection coll_links entry_link dc ext l0 /\ inverse l0 = Some l).
+Proof. exact Lemmas.gen_links_in_force_spec. Qed.
+Print Assumptions gen_links_in_force_spec.
